@@ -3,7 +3,7 @@
    for EVERY history (induction on the list of operations).  The translation itself is a Section variable [tr] with
    the read-set hypothesis (trusted about sqltranslation.py, attacked by the search): its result depends on parameter
    values only through the keys it reports in fixed_param_values. *)
-Require Import PonyV.Base.PyBase PonyV.Model.C05Memo PonyV.Proofs.C05Memo.
+Require Import PonyV.Base.PyBase PonyV.Model.C05Memo PonyV.Gen.C05Flags PonyV.Proofs.C05Memo PonyV.Proofs.C05Coded.
 
 (* a memo table whose key determines the computed value answers every history as a cold cache would, whatever
    clears / single-key invalidations are interleaved (string2ast_cache, extractors_cache, ast_cache, SQL cache) *)
@@ -32,10 +32,20 @@ Theorem C05_sqlkey_sound : forall C VT P VAL A (tr : C -> VT -> vars P VAL -> A 
 Proof. exact sqlkey_sound. Qed.
 Print Assumptions C05_sqlkey_sound.
 
-(* SessionCache.query_results: every history of fetches, aggregates, modifications, flushes, commits and bulk deletes gets
-   the answers of a cold cache - EXCEPT through the two recorded holes: raw SQL writes (unless they cleared the cache) and
-   Query._aggregate (unless it flushed before its lookup).  The two flags are the proposed repairs; the code has both false. *)
-Theorem C05_results_except_known : forall DB W Q R (qeqb : Q -> Q -> bool) (exec : DB -> Q -> R) (apply : DB -> W -> DB)
+(* SessionCache.query_results AS CODED (the two flags of the session model are read from pony/orm/core.py on every run,
+   Gen/C05Flags.v): every history of fetches, aggregates, modifications, flushes, commits and bulk deletes gets the answers
+   of a cold cache; the only exclusion is a raw SQL write (Database.execute / insert), which does not clear query_results.
+   (Until repo commit 2af0689 Query._aggregate was a second hole; reverting it makes this proof fail.) *)
+Theorem C05_results_except_known : forall DB W Q R (qeqb : Q -> Q -> bool) (exec : DB -> Q -> R) (apply : DB -> W -> DB),
+  (forall a b, qeqb a b = true -> a = b) ->
+  forall db h, forallb (fun o => negb (is_raw W Q o)) h = true ->
+  srun DB W Q R qeqb exec apply raw_clears_in_source aggr_flushes_in_source (mksess DB W Q R db [] []) h
+  = cold_run DB W Q R exec apply db [] h.
+Proof. exact results_as_coded. Qed.
+Print Assumptions C05_results_except_known.
+
+(* the same for any setting of the two flags (raw writes clearing the cache would close the remaining hole) *)
+Theorem C05_results_general : forall DB W Q R (qeqb : Q -> Q -> bool) (exec : DB -> Q -> R) (apply : DB -> W -> DB)
   (raw_clears aggr_flushes : bool),
   (forall a b, qeqb a b = true -> a = b) ->
   forall db h,
@@ -43,7 +53,7 @@ Theorem C05_results_except_known : forall DB W Q R (qeqb : Q -> Q -> bool) (exec
   (aggr_flushes = true \/ forallb (fun o => negb (is_aggregate W Q o)) h = true) ->
   srun DB W Q R qeqb exec apply raw_clears aggr_flushes (mksess DB W Q R db [] []) h = cold_run DB W Q R exec apply db [] h.
 Proof. exact results_transparent. Qed.
-Print Assumptions C05_results_except_known.
+Print Assumptions C05_results_general.
 
 (* non-vacuity: a concrete translation function satisfying the read-set hypothesis (it pins parameter 0, like a string
    slice bound), a history that exercises hit, miss and replacement, and the transparent answers *)
